@@ -17,8 +17,9 @@ are `0 … widCounter-1`, and the number of workers ever created is `nWorkers` +
 workers the pool does not list any more (`created_unlisted`); without a join timeout all of those have exited
 (`unlisted_exited`).  A plain `FunctorPool` never creates a worker after `__init__` (`created_plain`).
 
-The invariants used are `LInv` (Proofs/PoolLifeAux2.lean: wids distinct, a worker that is not `gone` is listed, `.ending` only
-with a join timeout) and the small `AInv` below (wids are `range widCounter`, `procs` has no duplicates and length
+The invariants used are `LInv` (Proofs/PoolLifeAux2.lean: wids distinct, a worker that is not `gone` is listed), `UnlExited`
+(Proofs/PoolExited.lean: without a join timeout an unlisted worker has exited — the replace thread's join blocks while the
+retired worker is inside `end()`) and the small `AInv` below (wids are `range widCounter`, `procs` has no duplicates and length
 `nWorkers`).  `liveCnt` (Proofs/PoolLiveAux1.lean) counts the workers that are not `gone` — it includes `notStarted` and
 excludes `ending` —; `alive_balance` relates the two counts.
 -/
@@ -37,7 +38,7 @@ def aliveCnt (s : St) : Nat := s.workers.countP (fun w => running w.pc)
 /-- worker processes created (`_init_process`) but not started yet -/
 def notStartedCnt (s : St) : Nat := s.workers.countP (fun w => w.pc == .notStarted)
 
-/-- retired workers inside `end()` (their wid is posted; only with `Cfg.joinTimeout`) -/
+/-- workers inside `end()` (stop order taken / wid posted / raised; the `finally:` of `run` still to finish) -/
 def endingCnt (s : St) : Nat := s.workers.countP (fun w => w.pc == .ending)
 
 /-- workers the pool does not list (any more) -/
@@ -337,10 +338,12 @@ theorem created_unlisted (cfg : Cfg) (s : St) (h : Reach cfg s) : s.workers.leng
 theorem unlisted_gone (cfg : Cfg) (s : St) (h : Reach cfg s) (w : Worker) (hw : w ∈ s.workers) (hn : w.wid ∉ s.procs) :
     w.pc = .exited ∨ (w.pc = .ending ∧ cfg.joinTimeout = true) := by
   obtain ⟨hL, hc⟩ := LInv_reach h
-  cases hg : gone w.pc
-  · exact absurd (hL.listed w hw hg) hn
-  · cases hp : w.pc <;> rw [hp] at hg <;> first | (left; rfl) | cases hg | skip
-    right; exact ⟨rfl, by rw [← hc]; exact (hL.wk w hw).ending hp⟩
+  cases hjt : cfg.joinTimeout
+  · left; exact unlisted_exited' cfg hjt s h w hw hn
+  · cases hg : gone w.pc
+    · exact absurd (hL.listed w hw hg) hn
+    · cases hp : w.pc <;> rw [hp] at hg <;> first | (left; rfl) | cases hg | skip
+      right; exact ⟨rfl, rfl⟩
 
 /-- without a join timeout every worker that is not listed any more has exited: the replaced workers hold nothing -/
 theorem unlisted_exited (cfg : Cfg) (hjt : cfg.joinTimeout = false) (s : St) (h : Reach cfg s) (w : Worker)
@@ -374,21 +377,29 @@ theorem alive_le_general (cfg : Cfg) (s : St) (h : Reach cfg s) :
   rw [alive_balance]
   exact Nat.add_le_add_right (liveCnt_le_workers cfg s h) _
 
-theorem endingCnt_zero (cfg : Cfg) (hjt : cfg.joinTimeout = false) (s : St) (h : Reach cfg s) : endingCnt s = 0 := by
-  obtain ⟨hL, hc⟩ := LInv_reach h
-  unfold endingCnt
-  rw [List.countP_eq_zero]
-  intro w hw hp
-  have hpc : w.pc = .ending := by simpa using hp
-  have := (hL.wk w hw).ending hpc
-  rw [hc, hjt] at this; cases this
+/-- running or created-but-not-started = not exited -/
+theorem alive_notStarted_eq (s : St) :
+    aliveCnt s + notStartedCnt s = s.workers.countP (fun w => w.pc != .exited) + s.workers.countP (fun _ => false) := by
+  unfold aliveCnt notStartedCnt
+  apply countP_balance
+  intro w _
+  cases w.pc <;> rfl
 
-/-- `join_timeout=None`: worker processes running or created-but-not-started are never more than `nWorkers` -/
+/-- `join_timeout=None`: worker processes running or created-but-not-started are never more than `nWorkers`: each of them is
+listed (a replaced worker has exited before its slot was overwritten — the replace thread's join blocks while the retired
+worker is still inside `end()`), and the pool lists `nWorkers` distinct wids -/
 theorem alive_notStarted_le_workers (cfg : Cfg) (hjt : cfg.joinTimeout = false) (s : St) (h : Reach cfg s) :
     aliveCnt s + notStartedCnt s ≤ cfg.nWorkers := by
-  have := alive_le_general cfg s h
-  rw [endingCnt_zero cfg hjt s h] at this
-  exact this
+  obtain ⟨hL, _⟩ := LInv_reach h
+  rw [alive_notStarted_eq, ← listed_length cfg s h]
+  have h0 : s.workers.countP (fun _ => false) = 0 := by rw [List.countP_eq_zero]; intro _ _ hh; cases hh
+  rw [h0, Nat.add_zero]
+  apply countP_le_of_listed hL.nodup
+  intro w hw hp
+  by_cases hn : w.wid ∈ s.procs
+  · exact hn
+  · have := unlisted_exited' cfg hjt s h w hw hn
+    rw [this] at hp; cases hp
 
 /-- **`join_timeout=None`: in every reachable state at most `nWorkers` worker processes are running** — a successor is
 started only after the worker it replaces has exited, so replacement never raises the number of running processes -/
@@ -404,14 +415,31 @@ theorem alive_listed (cfg : Cfg) (hjt : cfg.joinTimeout = false) (s : St) (h : R
   · have := unlisted_exited cfg hjt s h w hw hn
     rw [this] at hr; cases hr
 
-/-- `join_timeout=None`: whenever the replace thread is at its `join` for worker `wid` (about to create the successor), that
-worker has already exited -/
+/-- `join_timeout=None`: whenever the replace thread PERFORMS its `join` step for worker `wid` (the step that creates the
+successor: `step s .r = some s'` at `rpc = .join wid`), that worker has already exited.  RESTATED (hypothesis `hs` added): the
+retired worker posts its wid and only then runs `end()`, so the replace thread can ARRIVE at the join while the worker is
+still inside `end()` (`successor_join_waits`); the join then blocks until the exit -/
 theorem successor_after_exit (cfg : Cfg) (hjt : cfg.joinTimeout = false) (s : St) (h : Reach cfg s) (wid : Nat)
-    (hr : s.rpc = .join wid) : ∀ w ∈ s.workers, w.wid = wid → w.pc = .exited := by
+    (hr : s.rpc = .join wid) (s' : St) (hs : step s .r = some s') : ∀ w ∈ s.workers, w.wid = wid → w.pc = .exited := by
   obtain ⟨hL, hc⟩ := LInv_reach h
-  intro w hw he
+  have hs : stepR s = some s' := hs
+  unfold stepR at hs
+  split at hs
+  · cases hs
+  · simp only [hr] at hs
+    split at hs
+    · rename_i hj
+      rw [hc, hjt] at hj
+      exact workerExited_all hL (by simpa using hj)
+    · cases hs
+
+/-- every configuration: the worker the replace thread is about to join has left its loop for good (exited or inside
+`end()`) -/
+theorem successor_after_gone (cfg : Cfg) (s : St) (h : Reach cfg s) (wid : Nat) (hr : s.rpc = .join wid) :
+    ∀ w ∈ s.workers, w.wid = wid → gone w.pc = true := by
+  obtain ⟨hL, _⟩ := LInv_reach h
   have hp : wid ∈ pending s := by unfold pending; rw [hr]; exact List.mem_append_left _ (List.mem_singleton.2 rfl)
-  exact exited_of_gone (hL.wk w hw) (by rw [hc]; exact hjt) ((hL.pend wid hp).2 w hw he)
+  exact (hL.pend wid hp).2
 
 /-! ### with a join timeout the bound fails -/
 
@@ -458,16 +486,27 @@ theorem alive_bound_needs_no_timeout : ¬ ∀ (cfg : Cfg) (s : St), Reach cfg s 
 /-- `jtCfg` without the join timeout: 1 worker, factory, quota 1, one ordered call of 2 chunks -/
 def njCfg : Cfg := { jtCfg with joinTimeout := false }
 
-/-- as `jtSched`, but the retiring worker 0 posts its wid and exits in ONE step (`join_timeout=None`): the replace thread's
-join finds it exited -/
+/-- as `jtSched`, but the retiring worker 0 posts its wid, runs `end()` and exits (two steps) BEFORE the replace thread
+moves (`join_timeout=None`): the replace thread's join finds it exited -/
 def njSched : List Tid :=
-  [.c, .c, .c, .c, .c, .c, .c, .w 0, .w 0, .f, .f, .f, .f, .f, .w 0, .w 0, .w 0, .w 0, .w 0, .r, .r, .r]
+  [.c, .c, .c, .c, .c, .c, .c, .w 0, .w 0, .f, .f, .f, .f, .f, .w 0, .w 0, .w 0, .w 0, .w 0, .w 0, .r, .r, .r]
 
 /-- after the replacement: worker 0 exited, worker 1 listed and running — the bound `nWorkers = 1` is attained, two workers
 have been created, one replacement performed, one worker unlisted -/
 theorem njSched_run : (run (init njCfg) njSched).map
     (fun s => (s.procs, s.workers.map (fun w => (w.wid, w.pc)), aliveCnt s, unlistedCnt s)) =
     some ([1], [(0, .exited), (1, .bfClear)], 1, 1) ∧ replCount (init njCfg) njSched = 1 := by
+  decide +kernel
+
+/-- the other order: worker 0 posts its wid, the replace thread takes it and arrives at its join while worker 0 is still inside
+`end()`: the join BLOCKS (the replace thread is not enabled; worker 0 is), one running process — the former form of
+`successor_after_exit` (without the step) is false in this state -/
+def njSchedWait : List Tid :=
+  [.c, .c, .c, .c, .c, .c, .c, .w 0, .w 0, .f, .f, .f, .f, .f, .w 0, .w 0, .w 0, .w 0, .w 0, .r]
+
+theorem successor_join_waits : (run (init njCfg) njSchedWait).map
+    (fun s => (s.rpc, s.workers.map (fun w => (w.wid, w.pc)), (step s .r).isSome, (step s (.w 0)).isSome, aliveCnt s)) =
+    some (.join 0, [(0, .ending)], false, true, 1) := by
   decide +kernel
 
 end WindVerif.Pool
